@@ -27,6 +27,17 @@ EVD = {"ev": "", "offered": 0, "k": 0, "w": 0, "e": 0, "ready": False, "ok": Fal
 INVS = ["WirePrefix", "ExactOnReturn", "WithinBudget", "TimeoutMeansExhausted", "ZeroNeverWaits"]
 
 CHUNKSEQS: list[list[int]] = [[], [0], [3], [0, 3], [3, 0], [2, 0, 1, 0], [1, 1, 1], [0, 0], [5, 4], [0, 0, 2, 0, 0], [1, 0, 0, 1], [4, 1, 2, 3, 1]]
+# library-scale sizes (scripted runs only, not in the TLC model): thresholds such as 32 KiB, many chunks (the scripted IOV_MAX is 1..3 or 1024)
+LARGESEQS: list[list[int]] = [
+    [18, 100000, 1],
+    [1, 0, 1, 33000, 1, 66000],
+    [40000, 5],
+    [5, 32768],
+    [32767, 32769, 0, 3],
+    [70000],
+    [16] + [128] * 40,
+    [3] * 30 + [0, 7],
+]
 
 
 def _model(chk: Check, quick: bool) -> bool:
@@ -66,8 +77,8 @@ def _scenario(target: str, chunks: list[int], iovmax: int, budget: float, ri: fl
     for _ in range(nsteps):
         env.send_script.append(rng.choice([("accept", 1), ("accept", 2), ("accept", max(1, total // 2)), ("accept", 10**6), ("eagain",), ("eagain",), ("eintr",)]))
     for _ in range(8):
-        env.select_script.append(rng.choice([("ready", 0), ("ready", 1), ("ready", 1), ("ready", 2), ("timeout",)]))
-    payload = [bytes([65 + i]) * n for i, n in enumerate(chunks)]
+        env.select_script.append(rng.choice([("ready", 0), ("ready", 1), ("ready", 1), ("ready", 2), ("timeout",), ("late", 1), ("late", 2)]))
+    payload = [bytes([65 + i % 26]) * n for i, n in enumerate(chunks)]
     expected = b"".join(payload)
     mode = "join" if target.endswith("nosendmsg") else "sendmsg"
     sock = vsync.ScriptedSocket.create(env, hide_sendmsg=(mode == "join"))
@@ -224,6 +235,65 @@ async def _async_adapter_lost_scenario(use_iterable: bool, after_eof: bool) -> t
             pass
 
 
+def _tls_blocking_scenario(lib_is_server: bool, packets: list[list[int]]) -> tuple[bool, str]:
+    """SSLStreamTransport.send_all_from_iterable() over a socket pair against a threaded stdlib TLS peer: the peer must decrypt exactly the chunks' bytes."""
+    import socket
+    import ssl
+    import threading
+
+    from easynetwork.lowlevel.api_sync.transports.socket import SSLStreamTransport
+
+    from .. import tlspeer
+
+    a, b = socket.socketpair()
+    payloads = [[bytes((65 + i + j) % 256 for j in range(n)) for i, n in enumerate(p)] for p in packets]
+    expected = b"".join(b"".join(p) for p in payloads)
+    got = bytearray()
+    err: list[str] = []
+
+    def peer() -> None:
+        try:
+            ctx = tlspeer.client_context() if lib_is_server else tlspeer.server_context()
+            s = ctx.wrap_socket(b, server_side=not lib_is_server, server_hostname="localhost" if lib_is_server else None)
+            s.settimeout(10)
+            while True:
+                try:
+                    data = s.recv(65536)
+                except (ssl.SSLError, OSError):
+                    break
+                if not data:
+                    break
+                got.extend(data)
+        except Exception as exc:  # noqa: BLE001
+            err.append(f"peer: {type(exc).__name__}: {exc}")
+
+    th = threading.Thread(target=peer, daemon=True)
+    th.start()
+    detail = ""
+    try:
+        if lib_is_server:
+            tr = SSLStreamTransport(a, tlspeer.server_context(), retry_interval=0.5, server_side=True, handshake_timeout=20)
+        else:
+            tr = SSLStreamTransport(a, tlspeer.client_context(), retry_interval=0.5, server_hostname="localhost", handshake_timeout=20)
+        for p in payloads:
+            tr.send_all_from_iterable(iter(p), 20)
+        tr.close()
+    except Exception as exc:  # noqa: BLE001
+        detail = f"send failed: {type(exc).__name__}: {exc}"
+    th.join(20)
+    for s_ in (a, b):
+        try:
+            s_.close()
+        except OSError:
+            pass
+    if err and not detail:
+        detail = err[0]
+    if not detail and bytes(got) != expected:
+        n = next((i for i, (x, y) in enumerate(zip(got, expected)) if x != y), min(len(got), len(expected)))
+        detail = f"the peer decrypted {len(got)} bytes, the packets are {len(expected)} bytes long; first difference at offset {n}"
+    return (not detail), detail
+
+
 def run(chk: Check) -> None:
     quick = chk.tier == "quick"
     rng = random.Random(chk.seed)
@@ -237,7 +307,7 @@ def run(chk: Check) -> None:
     n = 2500 if quick else 40000
     for i in range(n):
         target = rng.choice(["transport", "transport-nosendmsg", "endpoint", "endpoint-nosendmsg"])
-        chunks = rng.choice(CHUNKSEQS)
+        chunks = rng.choice(CHUNKSEQS) if i % 12 else rng.choice(LARGESEQS)
         rec.append(_scenario(target, list(chunks), rng.choice([1, 2, 3, 1024]), rng.choice([math.inf, 0, 1, 2, 5]), rng.choice([0, 0, 1, 2]), rng))
     slim = [{"par": t["par"], "events": t["events"]} for t in rec]
     res = traces.validate("SendAllTrace", slim, cfg_text=TRACE_CFG, parallel=12, chunk=800)
@@ -291,11 +361,23 @@ def run(chk: Check) -> None:
                     {"kind": "async_adapter_lost", "iterable": use_iter, "after_eof": after_eof},
                 )
     chk.extra["async_adapter_scenarios"] = nasync
+    # blocking TLS transport: chunk lists with empty chunks in every position, small and record-sized chunks
+    tls_packets = [list(c) for c in CHUNKSEQS] + [[7, 0, 20000], [0, 0, 40], [20000, 0, 0, 5], [17000, 17000]]
+    for lib_is_server in (False, True):
+        ok, detail = _tls_blocking_scenario(lib_is_server, tls_packets)
+        chk.traces += 1
+        chk.distinct.add(("tls-blocking", lib_is_server))
+        if not ok:
+            chk.violation(
+                {"kind": "tls_blocking", "api": "send_all_from_iterable", "what": "wire"},
+                f"blocking TLS transport ({'server' if lib_is_server else 'client'} side), send_all_from_iterable() of the chunk lists {tls_packets}: {detail}",
+                {"kind": "tls_blocking", "server_side": lib_is_server, "packets": tls_packets},
+            )
     chk.evaluations = chk.traces
     chk.assumptions += [
         "a send()/sendmsg() of a non-empty buffer accepts at least one byte or raises EAGAIN/EINTR (POSIX); select() that reports 'not ready' has "
         "waited the full timeout",
-        "the TLS transports' send loops are covered by the C08 check",
+        "the asynchronous TLS transport's send path is covered by the C08 check",
     ]
 
 
